@@ -400,8 +400,34 @@ func c16(c *Ctx) {
 		rng.Read(content)
 		serial := uint16(rng.Intn(65536))
 		segs := [][]byte{Frame808(0x1210, false, bcd, serial, Body1210(d, []byte("ID"), 0, -1, []AttItem{{name, uint32(size)}}))}
+		if i%5 == 3 {
+			// equal-sized cells, m of them lost and m received ones sent twice: the bytes counted twice
+			// equal the bytes missing (a byte COUNT that reaches the size must not be taken for coverage)
+			u := uint64(1 + rng.Intn(50))
+			k := 3 + rng.Intn(6)
+			size = u * uint64(k)
+			content = make([]byte, size)
+			rng.Read(content)
+			m := 1 + rng.Intn(k/2)
+			perm := rng.Perm(k)
+			ch = nil
+			for _, j := range perm[m:] {
+				ch = append(ch, seg{uint32(uint64(j) * u), uint32(u)})
+			}
+			segs = [][]byte{Frame808(0x1210, false, bcd, serial, Body1210(d, []byte("ID"), 0, -1, []AttItem{{name, uint32(size)}}))}
+		}
 		for _, s := range ch {
 			segs = append(segs, Chunk(d, name, s.O, content[s.O:s.O+s.L]))
+		}
+		if i%5 == 3 {
+			for _, s := range ch[:min(len(ch), int(size/uint64(ch[0].L))-len(ch))] { // as many duplicates as cells are missing
+				segs = append(segs, Chunk(d, name, s.O, content[s.O:s.O+s.L]))
+			}
+		} else if len(ch) > 0 && rng.Intn(3) == 0 { // an identical chunk sent again (retransmission), anywhere before the report
+			s := ch[rng.Intn(len(ch))]
+			dup := Chunk(d, name, s.O, content[s.O:s.O+s.L])
+			at := 1 + rng.Intn(len(segs))
+			segs = append(segs[:at:at], append([][]byte{dup}, segs[at:]...)...)
 		}
 		segs = append(segs, Frame808(0x1212, false, bcd, serial+1, Body1211(name, 2, uint32(size))))
 		want := refGaps(size, ch)
